@@ -35,7 +35,7 @@ def make_pool(rng, work):
     (work / "A.utb").write_text("space \\s 1\nletter a 12\nletter b 2\npunctuation . 256\n")
     (work / "B.utb").write_text("space \\s 0\nletter a 1\nletter b 12\npunctuation . 256\nalways ab 1-1\n")
     (work / "C.utb").write_text("space \\s 0\nletter a 1\nletter b 12\nnoback pass2 @1-12 @12-1\nnofor pass2 @12-1 @1-12\nnoback correct \"ba\" \"ab\"\nnofor correct \"ab\" \"ba\"\n")
-    (work / "D.utb").write_text("space \\s 0\nletter a 1\nletter b 12\ndigit 1 2\nnumsign 3456\nnoback context \"a\"[] @12\nnofor pass3 []@1 ?\n")
+    (work / "D.utb").write_text("space \\s 0\nletter a 1\nletter b 12\ndigit 1 2\nnumsign 3456\nnoback context \"a\"[] @12\nnofor pass3 []@1 ?\nnofor context @12-1 \"abab\"\nnofor context @1-1 \"bbbbbb\"\n")
     # V: multipass variables, indices spread over the whole array (0, the last one, and others): a variable left set by
     # one call must not be seen by the next (they are reset at the start of every stage)
     nv = int(tablegen.consts().get("NUMVAR", 50))
@@ -125,6 +125,20 @@ def run(chk):
                 "Y %s ;; %s" % (b, trans.case_line("B", 4, [0x8001, 0x8001, 0x8003, 0x8001], 2, presence=12)),
                 "Y en-us-g2.ctb ;; " + trans.case_line("B", 128, [0x20, 0x20, 0x66, 0x6d, 0x32, 0x20, 0x3b, 0x6e, 0x23, 0x62], 0, presence=12)]
     pool += targeted
+    # scenarios: short fixed sequences whose order matters (a call that fails on an early-exit path, then a call that would
+    # see what the first one left behind)
+    dd = str(work / "D.utb")
+    match_text = [ord(c) for c in "this/that could/should just_for_good.org (as) e.g."]
+    scenarios = [
+        ["Y %s ;; %s" % (dd, trans.case_line("B", 4, [0x8003, 0x8001], 2)),          # nofor context @12-1 "abab" does not fit: early return
+         "Y en-ueb-g2.ctb ;; " + trans.case_line("T", 0, match_text, 200, presence=12)],
+        ["Y %s ;; %s" % (dd, trans.case_line("B", 4, [0x8001, 0x8001, 0x8003], 3)),
+         "Y en-us-g2.ctb ;; " + trans.case_line("T", 0, match_text, 200, presence=12)],
+        ["Y en-ueb-g2.ctb ;; " + trans.case_line("T", 0, match_text, 3), "Y en-ueb-g2.ctb ;; " + trans.case_line("B", 0, [ord(c) for c in ",! _4 ?is"], 4),
+         "Y en-ueb-g2.ctb ;; " + trans.case_line("T", 0, match_text, 200, presence=12)],
+    ]
+    for sc in scenarios:
+        pool += sc
     fresh = {}
     for exact in (1, 0):
         for c in pool:
@@ -141,6 +155,8 @@ def run(chk):
                 hist.append("F")
             elif r.chance(0.15):
                 hist.append(r.choice(targeted))
+            elif r.chance(0.12):
+                hist += r.choice(scenarios)
             else:
                 hist.append(r.choice(pool))
         outs = common.run_stream(exe, ["e %d" % exact, "b 4000000"], hist, env=env, timeout=600)
@@ -170,7 +186,7 @@ def run(chk):
             fnkey = c.split(";;")[1].split()[1]
             chk.violation("history-dependence:%s:exact%d" % (fnkey, exact), what,
                           dict(history=culprit or hist[:k + 1], exact=exact, call=c, after_history=list(s) if isinstance(s, tuple) else s,
-                               fresh=list(f) if isinstance(f, tuple) else f, tables={os.path.basename(p): open(p).read() for p in lists if "/work-" in p}))
+                               fresh=list(f) if isinstance(f, tuple) else f, tables={os.path.basename(p.split(",")[-1]): open(p.split(",")[-1]).read() for p in lists if "/work-" in p}))
             break
     shutil.rmtree(work, ignore_errors=True)
     chk.cov["rule"] = ("histories of 3-30 (thorough: -120) API calls drawn from a pool of ~75 (thorough ~400) distinct calls (translate / "
